@@ -20,7 +20,7 @@ pub fn run(cfg: &Cfg, log: &mut Log) {
             log.violation("C06", &format!("C06/align-hash/{}", class), rc.name, None,
                 format!("align hash {:#018x} differs from the published recipe {:#018x}", ah, mah), vec![]);
         }
-        for v in values(&rc, cfg.seed, nvals) {
+        for v in values(&rc, cfg.seed, nvals).into_iter().chain(big_values(&rc)) {
             log.begin(rc.name);
             log.count("evaluations", 1);
             let bytes = match ser_plain(&rc, &v) {
